@@ -5,19 +5,23 @@ import numpy as np
 
 
 def tau_b(x, y):
+    """tau-b = (P - Q) / sqrt((n0 - n1)(n0 - n2)) by counting all pairs (row blocks keep memory small)."""
     x = np.asarray(x, float)
     y = np.asarray(y, float)
     n = len(x)
     if n < 2:
         return float('nan')
-    sx = np.sign(x[:, None] - x[None, :]).astype(np.int8)
-    sy = np.sign(y[:, None] - y[None, :]).astype(np.int8)
-    iu = np.triu_indices(n, 1)
-    a, b = sx[iu].astype(np.int64), sy[iu].astype(np.int64)
-    s = int(np.sum(a * b))                     # concordant - discordant
+    s = t1 = t2 = 0
+    for a in range(0, n, 512):
+        sx = np.sign(x[a:a + 512, None] - x[None, :]).astype(np.int8)
+        sy = np.sign(y[a:a + 512, None] - y[None, :]).astype(np.int8)
+        s += int(np.sum(sx.astype(np.int32) * sy))      # every unordered pair counted twice
+        t1 += int(np.sum(sx == 0))
+        t2 += int(np.sum(sy == 0))
+    s //= 2
     n0 = n * (n - 1) // 2
-    n1 = int(np.sum(a == 0))                   # pairs tied in x
-    n2 = int(np.sum(b == 0))                   # pairs tied in y
+    n1 = (t1 - n) // 2                              # pairs tied in x (diagonal removed)
+    n2 = (t2 - n) // 2
     den = (n0 - n1) * (n0 - n2)
     if den == 0:
         return float('nan')
